@@ -499,7 +499,7 @@ impl UpdSpec {
 /// Read-only calls (C07 purity).
 pub const N_READS: u8 = 8;
 /// Ways of rebuilding a level (C10 / crash-restart).
-pub const N_RESTORE_PATHS: u8 = 7;
+pub const N_RESTORE_PATHS: u8 = 8;
 
 #[derive(Clone, Debug, PartialEq, Serialize, Deserialize)]
 pub enum Op {
